@@ -87,12 +87,20 @@ ServiceFile(a, n, c) ==   \* (no sub-directories are made on this path: only nam
     /\ UNCHANGED open
     /\ Log("ServiceFile", a, 0, n, c)
 
+(* a third-party service names the agent itself: an id that is not one plain path component ("..", "../x",
+   ".", "<known id>/sub", "x/../../y", an absolute path) must never make the teamserver write anything *)
+CraftedIds == {"dotdot", "up", "dot", "nested", "deep", "abs"}
+CraftedFile(a, cls) ==
+    /\ UNCHANGED <<fs, open>> /\ last' = [op |-> "CraftedFile", ok |-> FALSE]
+    /\ Log("CraftedFile", a, 0, <<>>, cls)
+
 Next == /\ Len(hist) < MaxOps
         /\ \E a \in Agents :
              \/ \E f \in Fids, n \in Names : Open(a, f, n)
              \/ \E f \in Fids, c \in Chunks : Write(a, f, c)
              \/ \E f \in Fids : Close(a, f)
              \/ \E n \in Names, c \in Chunks : ServiceFile(a, n, c)
+             \/ \E cls \in CraftedIds : CraftedFile(a, cls)
 Spec == Init /\ [][Next]_vars
 -----------------------------------------------------------------------------
 (* C07 *)
